@@ -43,14 +43,15 @@ def enddef_op(kind, k):
 DELTAS = ['att_small', 'att_large', 'fixed_var', 'rec_var', 'both', 'realign', 'att_large_rec']
 
 
-def gen(fmts, nps, units, nrecs_list, bases, aligns, reps=(1, 2), pres=('coll',)):
+def gen(fmts, nps, units, nrecs_list, bases, aligns, reps=(1, 2), pres=('coll',), fill=False):
     progs = []
     for fmt, bname, al, nrec, dk, rep, np, unit, pre in itertools.product(fmts, bases, aligns, nrecs_list, DELTAS, reps, nps, units, pres):
         dims, vars_ = BASES[bname]
         if pre == 'indep_div' and (np < 2 or not any(d[1] is None for d in dims)): continue
         if nrec and not any(d[1] is None for d in dims) and nrec != nrecs_list[0]: continue
         env = {'PNETCDF_VERIF_MOVE_UNIT': str(unit)} if unit else None
-        p = Prog('R-f%d-%s-%s-r%d-%s-x%d-np%d-u%s%s' % (fmt, bname, al, nrec, dk, rep, np, unit, '' if pre == 'coll' else '-' + pre), np, fmt, ALIGN[al], env)
+        p = Prog('R-f%d-%s-%s-r%d-%s-x%d-np%d-u%s%s%s' % (fmt, bname, al, nrec, dk, rep, np, unit, '' if pre == 'coll' else '-' + pre, '-fill' if fill else ''), np, fmt, ALIGN[al], env)
+        if fill: p.do(dict(op='set_fill', mode=1))      # new variables are filled at enddef: the fill may not touch what is already there
         for n, l in dims: p.do(dict(op='def_dim', name=n, len=l))
         for n, t, dd in vars_: p.do(dict(op='def_var', name=n, xtype=t, dims=dd))
         p.do(dict(op='_enddef', h_minfree=0, v_align=0, v_minfree=3000, r_align=0) if al == 'gap' else dict(op='enddef'))
@@ -125,9 +126,9 @@ def main(tier=None):
     b = build.build('plain')
     thorough = ck.tier == 'thorough'
     if thorough:
-        progs = gen((1, 2, 5), (1, 2, 3, 4), (None, 8, 24, 64), (0, 1, 3), list(BASES), list(ALIGN)) + gen((1, 5), (2, 3, 4), (None, 8), (0, 2), ['rec1odd', 'rec2', 'mix', 'mix1'], ['tight', 'gap'], pres=('indep_div',))
+        progs = gen((1, 2, 5), (1, 2, 3, 4), (None, 8, 24, 64), (0, 1, 3), list(BASES), list(ALIGN)) + gen((1, 5), (2, 3, 4), (None, 8), (0, 2), ['rec1odd', 'rec2', 'mix', 'mix1'], ['tight', 'gap'], pres=('indep_div',)) + gen((1, 2, 5), (1, 2, 3), (None, 8), (0, 1, 3), list(BASES), list(ALIGN), fill=True)
     else:
-        progs = gen((1, 5), (1, 3), (None, 8), (0, 3), ['rec1odd', 'mix', 'fixed'], ['tight']) + gen((2,), (2, 4), (24,), (1,), ['rec2', 'mix1'], ['default'], reps=(2,)) + gen((1,), (1, 2), (None,), (3,), ['mix', 'mix1'], ['gap'], reps=(1,)) + gen((1,), (2, 3), (None, 8), (2,), ['rec1odd', 'mix'], ['tight'], reps=(1, 2), pres=('indep_div',))
+        progs = gen((1, 5), (1, 3), (None, 8), (0, 3), ['rec1odd', 'mix', 'fixed'], ['tight']) + gen((2,), (2, 4), (24,), (1,), ['rec2', 'mix1'], ['default'], reps=(2,)) + gen((1,), (1, 2), (None,), (3,), ['mix', 'mix1'], ['gap'], reps=(1,)) + gen((1,), (2, 3), (None, 8), (2,), ['rec1odd', 'mix'], ['tight'], reps=(1, 2), pres=('indep_div',)) + gen((1, 5), (1, 2), (None,), (0, 3), ['rec1odd', 'mix', 'fixed'], ['tight', 'gap'], reps=(1, 2), fill=True)
     progs += gen_abort((1, 2, 5) if thorough else (1, 5), (1, 2, 3) if thorough else (1, 2))
     results = runner.run_cases(b['vx'], [p.case for p in progs], batch=40)
     moved = 0
@@ -151,7 +152,7 @@ def main(tier=None):
             except cdf.CDFError: pass
     ck.cov['distinct_nontrivial'] = len(ck.outcomes)
     ck.cov['rule'] = ('base layouts {fixed only, one odd-sized record variable, two record variables, fixed/record mixes} x records {0,1,3} x alignment {default,tight} x deltas {small attribute, large attribute (header outgrows extent), '
-                      'new fixed variable, new record variable, all three, larger minfree/alignment via ncmpi__enddef} applied once and twice x formats x np 1-4 x PNETCDF_VERIF_MOVE_UNIT {unset,8,24,64} x {redef from collective mode, redef entered directly from independent mode after the higher ranks appended records (per-process record counts differ)}; every existing element is read back '
+                      'new fixed variable, new record variable, all three, larger minfree/alignment via ncmpi__enddef} applied once and twice x formats x np 1-4 x PNETCDF_VERIF_MOVE_UNIT {unset,8,24,64} x {no fill, dataset fill mode (added variables are filled at enddef)} x {redef from collective mode, redef entered directly from independent mode after the higher ranks appended records (per-process record counts differ)}; every existing element is read back '
                       'through the API after each enddef and after reopen, and the decoded file is compared with the model; abort after redef must leave the file byte-identical, abort of a new file must remove it; '
                       'distinct_nontrivial = distinct variable-offset layouts reached')
     ck.sample(progs[0].case.text()[:1500]); ck.sample(progs[len(progs) // 3].case.text()[:1500])
